@@ -55,7 +55,7 @@ def handleTokens (args : List String) (obs : String) : String :=
 def expectedOutcome (k0 : Char) : String :=
   let k := k0.toLower
   if k == 'g' ∨ k == 'k' ∨ k == 'v' then "200" else if k == 'e' ∨ k == 'p' then "500" else if k == 'd' then "closed"
-  else if k == 'm' then "400" else if k == 'r' then "200+200" else "-"
+  else if k == 'm' then "400" else if k == 'x' then "413" else if k == 'r' then "200+200" else "-"
 
 /-- Canonical schedule on the model: clients are accepted in order; when no slot is free the oldest connection
     ends.  Returns (max serving, final state). -/
